@@ -9,6 +9,18 @@
 
 using namespace hvm;
 
+#if defined(__has_feature)
+#if __has_feature(address_sanitizer)
+#include <sanitizer/asan_interface.h>
+#define HV_POISON(p, n) ASAN_POISON_MEMORY_REGION(p, n)
+#define HV_UNPOISON(p, n) ASAN_UNPOISON_MEMORY_REGION(p, n)
+#endif
+#endif
+#ifndef HV_POISON
+#define HV_POISON(p, n) ((void) 0)
+#define HV_UNPOISON(p, n) ((void) 0)
+#endif
+
 // C11 "never allocates": every operator new while a library call is in progress is counted
 static volatile bool g_allocWatch = false; static volatile unsigned long g_allocsInLibrary = 0;
 void* operator new(std::size_t n) { if (g_allocWatch) ++g_allocsInLibrary; void* p = std::malloc(n ? n : 1); if (!p) std::abort(); return p; }
@@ -27,9 +39,9 @@ namespace {
 
 static const int HDR = 8, REC = 32;
 enum OpKind { OP_UPDATE, OP_REACT_A, OP_REACT_B, OP_QUERY, OP_REQUEST, OP_BATCH, OP_SUCCEED, OP_FAIL, OP_PLAN_APPEND, OP_PLAN_CLEAR, OP_RESET,
-			  OP_ENTER_EXIT, OP_SAVE_LOAD, OP_REPLAY, OP_LOGGER, OP_SWITCH, OP_QUERY_B, OP_PLAN_REMOVE, OP_COUNT };
+			  OP_ENTER_EXIT, OP_SAVE_LOAD, OP_REPLAY, OP_LOGGER, OP_SWITCH, OP_QUERY_B, OP_PLAN_REMOVE, OP_COPY_DROP, OP_COUNT };
 static const char* OPN[OP_COUNT] = {"update", "react<A>", "react<B>", "query", "request", "batch", "succeed", "fail", "plan.append", "plan.clear", "reset",
-			  "enter/exit", "save->load", "replay", "logger", "switch", "query<B>", "plan.remove"};
+			  "enter/exit", "save->load", "replay", "logger", "switch", "query<B>", "plan.remove", "copy+drop-original"};
 static const char* TTN[7] = {"change", "restart", "resume", "select", "utilize", "randomize", "schedule"};
 static const char* ACTN[A_COUNT] = {"-", "request", "cancel", "succeed", "fail", "consume", "plan.append", "plan.clear", "burst", "succeed(other)", "fail(other)", "noforward"};
 static const char* MN[] = {"none", "select", "rank", "utility", "entryGuard", "enter", "reenter", "preUpdate", "update", "postUpdate", "preReact", "react", "query", "postReact", "exitGuard", "exit", "planSucceeded", "planFailed"};
@@ -93,6 +105,7 @@ struct Inst {
 	std::vector<Req> lastFirstExpected; std::vector<uint32_t> lastFirstTags;
 	int8_t activity[HV_NS]; bool activityKnown = false;
 	bool planExists[HV_REGION_COUNT > 0 ? HV_REGION_COUNT : 1]; bool markS[HV_NS], markF[HV_NS], markS0[HV_NS], markF0[HV_NS];   // C06 bookkeeping (marks outstanding now / at the start of the step)
+	bool overlongReplay = false;   // the current call replays more transitions than the transition sets hold (F31)
 	bool degeneratePlanDest = false;   // a plan holds (held) a task whose destination is an orthogonal region without composite ancestor (F29)
 	bool inUpdateOrReact = false;
 	bool outstandingMarks = false;   // success/failure marks set outside update()/react() (externally or from a guard) not yet consumed
@@ -101,7 +114,7 @@ struct Inst {
 
 	Inst() { for (auto& e : entered) e = false; for (auto& a : addr) a = nullptr; for (auto& p : planExists) p = false; for (int i = 0; i < HV_NS; ++i) markS[i] = markF[i] = false; }
 	void clearPlanBook() { degeneratePlanDest = false; for (auto& p : planExists) p = false; for (int i = 0; i < HV_NS; ++i) markS[i] = markF[i] = false; }
-	~Inst() { destroy(); }
+	~Inst() { destroy(); HV_UNPOISON(storage, sizeof storage); HV_UNPOISON(storage2, sizeof storage2); }
 	void build(uint8_t fill, bool withLogger = true) {
 		std::memset(storage, fill, sizeof storage);
 		ctx.owner = this; rng.ctx = &ctx;
@@ -116,8 +129,10 @@ struct Inst {
 		stateAddresses(*fsm, addr);
 	}
 	void destroy() { if (fsm) { fsm->~Instance(); fsm = nullptr; } if (original) { const bool r = ctx.record; ctx.record = false; original->~Instance(); original = nullptr; ctx.record = r; } }
+	void dropOriginal() { if (!original) return; const bool r = ctx.record; ctx.record = false; original->~Instance(); ctx.record = r; std::memset((void*) original, 0xDD, sizeof(Instance)); HV_POISON(original, sizeof(Instance)); originalDropped = true; original = nullptr; }
+	bool originalDropped = false;
 	// C10: continue on a copy of the instance (the original stays alive but idle)
-	void switchToCopy(uint8_t fill) { if (!fsm || original) return; std::memset(storage2, fill, sizeof storage2); Instance* c = new (storage2) Instance{*fsm}; original = fsm; fsm = c; stateAddresses(*fsm, addr); }
+	void switchToCopy(uint8_t fill) { if (!fsm || original) return; unsigned char* target = ((void*) fsm == (void*) storage) ? storage2 : storage; HV_UNPOISON(target, sizeof(Instance)); std::memset(target, fill, sizeof(Instance)); Instance* c = new (target) Instance{*fsm}; original = fsm; fsm = c; stateAddresses(*fsm, addr); }
 };
 
 struct Session {
@@ -248,6 +263,11 @@ struct Walker {
 			// F23: a state that carries a success/failure mark set outside update()/react() is (re-)entered
 			bool guardMark = false; { bool inRound = false; for (int i = 0; i < in.ctx.n; ++i) { if (in.ctx.tr[i].kind == E_ROUND) inRound = true; if ((in.ctx.tr[i].kind == E_ACT_SUCCEED || in.ctx.tr[i].kind == E_ACT_FAIL) && (inRound || !in.inUpdateOrReact)) guardMark = true; } }
 			if ((in.outstandingMarks || guardMark) && (text.find("!tasksSuccesses.get(stateId)") != std::string::npos || text.find("!tasksFailures .get(stateId)") != std::string::npos)) return S.known("F23");
+		}
+		// F31: a history longer than the capacity of the transition sets is replayed
+		if (b.file && in.overlongReplay) {
+			FILE* f = std::fopen(b.file, "r"); std::string text; if (f) { char l[1024]; int n = 0; while (std::fgets(l, sizeof l, f)) if (++n == b.line) { text = l; break; } std::fclose(f); }
+			if (text.find("index < TransitionSets::CAPACITY") != std::string::npos) return S.known("F31");
 		}
 		// F29: destination = an orthogonal region without any composite ancestor
 		if (b.file) {
@@ -609,6 +629,21 @@ void Walker::step(const Op& o, size_t index) {
 #endif
 		break;
 	case OP_SWITCH: if (S.inst[1] && !S.replica) S.cur ^= 1; break;
+	case OP_REPLAY: { // an arbitrary (possibly over-long) history replayed onto this instance: no guards, must stay well-formed
+		if (S.replica) break;
+		std::vector<Instance::Transition> v; const int n = 1 + o.a2 % 48;
+		for (int k = 0; k < n; ++k) { const uint32_t h = mix(o.a0 * 256u + o.a1, (uint32_t) k + 5u); int t = (int) (h % 7), d = (int) ((h >> 4) % HV_NS); saneRequest(t, d); v.push_back(Instance::Transition{(StateID) d, (TransitionType) t}); }
+		{ bool anyTransition = false; for (auto& t : v) if (t.type != TransitionType::SCHEDULE) anyTransition = true; if (!anyTransition) v[0] = Instance::Transition{(StateID) (1 % HV_NS), TransitionType::CHANGE}; } // a recorded history always holds a transition
+		in.overlongReplay = n > HV_COMPO_COUNT * HV_SUBST_LIMIT;
+		bool ok = false; LIB(ok = f.replayTransitions(&v[0], (hfsm2::Short) n)); (void) ok;
+		afterCall(in, what, true); in.overlongReplay = false;
+		for (int i = 0; i < x.n; ++i) if (isGuard(x.tr[i])) { S.violation("C09", "replayTransitions() consulted a guard"); break; }
+		in.queued.clear(); in.queuedTags.clear(); in.model.cfg = readCfg(f); st.cls("replay_of_generated_history"); if (n > HV_COMPO_COUNT * HV_SUBST_LIMIT) st.cls("replay_longer_than_history_capacity");
+		++S.cfgChanges; break; }
+	case OP_COPY_DROP: { // C11: keep using a copy after its original is gone (poisoned for ASan). Manual activation only (a destructor that exits would
+		// run callbacks for the original); the built-in generator is known finding F4 and excluded
+		if (!MANUAL || RNG_BUILTIN || in.original || S.replica) break;
+		in.switchToCopy((uint8_t) o.a0); in.dropOriginal(); st.cls("copy_used_after_original_destroyed"); break; }
 	case OP_SAVE_LOAD: if (S.inst[1] && !S.replica) saveLoad(in, *S.inst[S.cur ^ 1]); break;
 	case OP_LOGGER: if (!S.forceNoLogger) { in.loggerOn = !in.loggerOn; f.attachLogger(in.loggerOn ? &in.logger : nullptr); st.cls("logger_toggled"); } break;
 	default: break;
@@ -1117,14 +1152,15 @@ static std::string hv_render(const hv::Bytes& b) {
 #ifndef HV_FUZZER
 // op-kind weights per property profile
 static std::vector<int> profileWeights(const std::string& p) {
-	//                      upd reA reB qry req bat suc fai pAp pCl rst e/x s/l rpl log swi qB  pRm
+	//                      upd reA reB qry req bat suc fai pAp pCl rst e/x s/l rpl log swi qB  pRm c+d
 	if (p == "C04" || p == "C13" || p == "C09" || p == "C14")
-		return std::vector<int>{ 6,  3,  0,  1, 12,  3,  0,  0,  0,  0,  1,  1,  0,  0,  1,  0,  0,  0};
-	if (p == "C02") return std::vector<int>{ 6,  2,  0,  1, 12,  5,  0,  0,  0,  0,  2,  1,  0,  0,  1,  0,  0,  0};
-	if (p == "C05") return std::vector<int>{ 6,  6,  2,  6,  8,  1,  0,  0,  0,  0,  1,  1,  0,  0,  1,  0,  2,  0};
-	if (p == "C06") return std::vector<int>{10,  4,  1,  0,  4,  0,  3,  2,  8,  1,  1,  1,  0,  0,  0,  0,  0,  2};
-	if (p == "C08") return std::vector<int>{ 3,  1,  0,  0, 10,  2,  0,  0,  1,  0,  1,  2,  6,  0,  0,  4,  0,  0};
-	return std::vector<int>{ 6,  3,  1,  2, 10,  3,  1,  1,  2,  1,  1,  1,  1,  0,  1,  1,  1,  1};
+		return std::vector<int>{ 6,  3,  0,  1, 12,  3,  0,  0,  0,  0,  1,  1,  0,  0,  1,  0,  0,  0,  0};
+	if (p == "C02") return std::vector<int>{ 6,  2,  0,  1, 12,  5,  0,  0,  0,  0,  2,  1,  0,  0,  1,  0,  0,  0,  0};
+	if (p == "C11") return std::vector<int>{ 6,  3,  1,  1, 10,  6,  1,  1,  3,  1,  1,  1,  1,  2,  1,  1,  1,  1,  1};
+	if (p == "C05") return std::vector<int>{ 6,  6,  2,  6,  8,  1,  0,  0,  0,  0,  1,  1,  0,  0,  1,  0,  2,  0,  0};
+	if (p == "C06") return std::vector<int>{10,  4,  1,  0,  4,  0,  3,  2,  8,  1,  1,  1,  0,  0,  0,  0,  0,  2,  0};
+	if (p == "C08") return std::vector<int>{ 3,  1,  0,  0, 10,  2,  0,  0,  1,  0,  1,  2,  6,  0,  0,  4,  0,  0,  0};
+	return std::vector<int>{ 6,  3,  1,  2, 10,  3,  1,  1,  2,  1,  1,  1,  1,  0,  1,  1,  1,  1,  0};
 }
 
 static rc::Gen<hv::Bytes> hv_gen() {
